@@ -213,6 +213,8 @@ impl RemotePathState {
     /// We currently only prune non-relay paths. For more information on the
     /// criteria for when and which paths we prune, look at the [`prune_non_relay_paths`] function.
     pub(super) fn prune_paths(&mut self) {
+        #[cfg(iroh_verif)]
+        verif_hooks::record_prune(&self.paths);
         prune_non_relay_paths(&mut self.paths);
     }
 }
@@ -345,6 +347,58 @@ pub mod verif_hooks {
         Unusable,
         /// `PathStatus::Unknown`
         Unknown,
+    }
+
+    thread_local! {
+        /// Per thread: the map iteration orders seen by `prune_paths` while recording.
+        static PRUNE_LOG: std::cell::RefCell<Option<Vec<Vec<Addr>>>> =
+            const { std::cell::RefCell::new(None) };
+    }
+
+    /// Starts recording, on this thread, the iteration order of the path map at every
+    /// `RemotePathState::prune_paths` call (the order `prune_non_relay_paths` sees; it
+    /// decides ties between equal close times and which failed paths survive when all
+    /// failed).  Replaces any earlier recording.
+    pub fn prune_log_start() {
+        PRUNE_LOG.with(|log| *log.borrow_mut() = Some(Vec::new()));
+    }
+
+    /// Stops recording and returns one entry per `prune_paths` call since
+    /// [`prune_log_start`]: the keys of the map in iteration order, before pruning.
+    pub fn prune_log_take() -> Vec<Vec<Addr>> {
+        PRUNE_LOG.with(|log| log.borrow_mut().take().unwrap_or_default())
+    }
+
+    /// Called by `prune_paths`; a no-op unless this thread is recording.
+    pub(super) fn record_prune(paths: &rustc_hash::FxHashMap<Addr, PathState>) {
+        PRUNE_LOG.with(|log| {
+            if let Some(log) = log.borrow_mut().as_mut() {
+                log.push(paths.keys().cloned().collect());
+            }
+        });
+    }
+
+    /// All paths of `state` with their status, in map iteration order; close times are
+    /// reported as offsets from `epoch` (zero if earlier).
+    pub(in super::super) fn list_paths(state: &RemotePathState, epoch: Instant) -> Vec<(Addr, Status)> {
+        state
+            .paths
+            .iter()
+            .map(|(addr, path)| {
+                let status = match path.status {
+                    PathStatus::Open => Status::Open,
+                    PathStatus::Inactive(t) => Status::Inactive(t.saturating_duration_since(epoch)),
+                    PathStatus::Unusable => Status::Unusable,
+                    PathStatus::Unknown => Status::Unknown,
+                };
+                (addr.clone(), status)
+            })
+            .collect()
+    }
+
+    /// Number of queued resolve requests of `state`.
+    pub(in super::super) fn pending_resolve_requests(state: &RemotePathState) -> usize {
+        state.pending_resolve_requests.len()
     }
 
     /// A real `RemotePathState` plus the epoch that synthetic close times are relative to.
